@@ -1437,9 +1437,15 @@ def filtered_comprehension(engine, ctx, e, gen, src: SymSeq, b: Binding, env):
         cenv = Env(env.module, env, env.finfo)
         engine.assign(ctx, gen.target, b.value, cenv)
         conds = []
-        for cond in gen.ifs:
-            c = lift_bool(lift_bool_truth(engine, ctx, engine.eval(ctx, cond, cenv)))
-            conds.append(c)
+        # as for filter(pred, seq): `and` / `or` in the condition are evaluated strictly (no short-circuit fork); accepted
+        # only when no operand branches or raises, so both spellings yield the same canonical filtered sequence
+        ctx.pure_bool = getattr(ctx, "pure_bool", 0) + 1
+        try:
+            for cond in gen.ifs:
+                c = lift_bool(lift_bool_truth(engine, ctx, engine.eval(ctx, cond, cenv)))
+                conds.append(c)
+        finally:
+            ctx.pure_bool -= 1
         holder["cond"] = z3.And(*conds) if len(conds) > 1 else conds[0]
 
     run_under_binding(engine, ctx, b, body)
